@@ -25,8 +25,25 @@ What is proved instead:
     arrives with that scope still on the stack (the mechanism of the regions `leave_block_scope_leak`,
     `else_block_scope_leak`, `iterate_repeat_block_scope_leak`); `jumpFree_not_iterateRepeatEndBlock`
     — the guarded fragment lies outside the last of them.
+
+DECLARE … HANDLER (model `Gms/Model/ProcHandler.lean`, lemmas `Gms/Lemmas/ProcHandler.lean`, section
+"The error path" at the end of this file):
+  * `exit_scan_finds_block_end` / `exit_scan_compiled_block` / `compileH_balanced` — for ALL code: the
+    EXIT scan of `handleError`, started at the handler's DECLARE op, stops at the `ScopeEnd` of the block
+    that declared the handler, however deeply the code behind the DECLARE nests further blocks;
+    `handleError_exit_independent_of_failing_op` — the resume counter does not depend on the failing op;
+  * `spec_exit_skips_rest_of_declaring_block`, `spec_continue_resumes_in_nested_block` — what the
+    structured semantics demands on the shape "error in a nested block of the handler's block";
+  * `handler_exit_nested_agree` … — on the concrete witnesses the op machine and the Spec agree;
+    `finding_nested_handler_outermost_wins`, `finding_exit_handler_scope_leak`,
+    `finding_handler_body_dynamic_scope` — they do not (three defects of the unchanged tree).
+  Full statement, NOT proved (no simulation proof for the handler fragment yet; tied by the line-protocol
+  correspondence on every generated case instead):
+    ∀ p args s fuel r, ¬nestedHandlers ∧ ¬exitHandlerNested ∧ ¬handlerDynScope ∧ ¬hasElseBlockH →
+      callSpecH fuel p args s = some r → ∃ n, callImplH n p args s = r
 -/
 import Gms.Lemmas.ProcLang
+import Gms.Lemmas.ProcHandler
 import Gms.Generated.C24
 
 namespace Gms.ProcLang
@@ -780,5 +797,130 @@ theorem finding_declare_without_default_zero :
     (callImpl 20 ⟨[], wBareDeclare⟩ [] (sess0 none)).2.log = [some 0] ∧
     (callSpec Sem.mysql 20 ⟨[], wBareDeclare⟩ [] (sess0 none)).map (fun r => r.2.log) = some [none] := by
   decide
+
+/-! ## The error path: DECLARE … HANDLER -/
+
+set_option maxRecDepth 20000 in
+/-- Regenerated tie of `handleError` / `ListHandlers` / the error branch of `Call` to the model:
+`matchingHandler` (only SQLEXCEPTION assigns, the `break` leaves the switch ⇒ last match),
+`handleError` (first op of the handler code, run with counter -1), CONTINUE ⇒ `counter`, EXIT ⇒ the
+scan of `exitScanAux` started at **`matchingHandler.Counter`**, result `newCounter-1`, and
+`listHandlers` (depth 0 = top scope first). -/
+theorem facts_match_handlers :
+    Gms.Generated.C24.handlerSelect = ["DeclareHandlerCondition_MysqlErrorCode:", "DeclareHandlerCondition_SqlState:",
+      "DeclareHandlerCondition_ConditionName:", "DeclareHandlerCondition_SqlWarning:", "DeclareHandlerCondition_NotFound:",
+      "DeclareHandlerCondition_SqlException:matchingHandler=handler;break"]
+    ∧ Gms.Generated.C24.handlerRun = "op=handlerOps[0];code=handlerOps;counter=-1"
+    ∧ Gms.Generated.C24.handlerActions = ["DeclareHandlerAction_Continue:returncounter,nil",
+      "DeclareHandlerAction_Exit:remainingEndScopes:=1",
+      "DeclareHandlerAction_Exit:for:init:newCounter=matchingHandler.Counter;cond:newCounter<len(statements);post:newCounter++;if:remainingEndScopes==0⇒break;OpCode_ScopeBegin→remainingEndScopes++;OpCode_ScopeEnd→remainingEndScopes--",
+      "DeclareHandlerAction_Exit:returnnewCounter-1,io.EOF",
+      "DeclareHandlerAction_Undo:return-1,fmt.Errorf(\"DECLAREUNDOHANDLERisnotsupported\")"]
+    ∧ Gms.Generated.C24.handlerCallBranch = "{newCounter=hCounter}else{newCounter=counter}"
+    ∧ Gms.Generated.C24.listHandlersLoop = "i:=0;i<is.stack.Len();i++;range:is.stack.PeekDepth(i).handlers" := by
+  decide
+
+section Handlers
+open Gms.ProcH
+
+/-- README shape of the class: EXIT handler of the outer block, error in a nested block, observable
+statements behind the failing statement, behind the nested block. -/
+def hExitNested : HProc := { params := outR, body :=
+  (.block (.seq (.handler true false 0 (.lit (-1))) (.seq (.set 0 (.lit 1))
+    (.seq (.block (.seq (.emit (.lit 1)) (.seq .signal (.set 0 (.lit 2))))) (.seq (.set 0 (.lit 3)) (.emit (.lit 9))))))) }
+
+/-- On it the op machine and the structured semantics agree: r = -1, trace 1 — the statements behind
+the nested block do not run (non-vacuity of `exit_scan_finds_block_end`: the scan from the DECLARE at
+op 1 passes the nested block's ScopeBegin/ScopeEnd and stops at op 10). -/
+theorem handler_exit_nested_agree :
+    nestedHandlers false hExitNested.body = false ∧ exitHandlerNested true hExitNested.body = false ∧
+    handlerDynScope hExitNested.body = false ∧
+    exitScan (compileProgramH hExitNested.body) 1 = 10 ∧
+    (callImplH 60 hExitNested [.uvar 0] (sess0 none)) = (.ok, { uvars := [(0, some (-1))], sess := [(0, ⟨some (-1), true⟩)], log := [some 1] }) ∧
+    (callSpecH 40 hExitNested [.uvar 0] (sess0 none)).map (fun r => (r.1, getU 0 r.2.uvars, r.2.log)) = some (.ok, some (-1), [some 1]) := by
+  decide
+
+/-- CONTINUE through a nested block: both give r = 112. -/
+def hContinueNested : HProc := { params := outR, body :=
+  (.block (.seq (.handler false false 0 (.add (.var 0) (.lit 100))) (.seq (.set 0 (.lit 1))
+    (.seq (.block (.seq .signal (.set 0 (.add (.var 0) (.lit 1))))) (.set 0 (.add (.var 0) (.lit 10))))))) }
+
+theorem handler_continue_nested_agree :
+    getU 0 (callImplH 60 hContinueNested [.uvar 0] (sess0 none)).2.uvars = some 112 ∧
+    (callSpecH 40 hContinueNested [.uvar 0] (sess0 none)).map (fun r => (r.1, getU 0 r.2.uvars)) = some (.ok, some 112) := by
+  decide
+
+/-- A NOT FOUND handler does not catch SQLSTATE 45000 (both: errno 1644). -/
+theorem handler_notfound_does_not_match :
+    (callImplH 60 ⟨outR, .block (.seq (.handler true true 0 (.lit (-1))) (.seq (.set 0 (.lit 1)) (.seq .signal (.set 0 (.lit 2)))))⟩
+      [.uvar 0] (sess0 none)).1 = .err 1644 ∧
+    (callSpecH 40 ⟨outR, .block (.seq (.handler true true 0 (.lit (-1))) (.seq (.set 0 (.lit 1)) (.seq .signal (.set 0 (.lit 2)))))⟩
+      [.uvar 0] (sess0 none)).map (·.1) = some (.err 1644) := by
+  decide
+
+/-- The inner block has its own handler; the engine gives the condition to the outer block's. -/
+def wNestedHandlers : HProc := { params := outR, body :=
+  (.block (.seq (.handler true false 0 (.lit (-1))) (.seq (.set 0 (.lit 1))
+    (.seq (.block (.seq (.handler true false 0 (.lit (-2))) (.seq .signal (.set 0 (.lit 2))))) (.seq (.emit (.var 0)) (.set 0 (.lit 3))))))) }
+
+theorem finding_nested_handler_outermost_wins :
+    nestedHandlers false wNestedHandlers.body = true ∧
+    (callImplH 60 wNestedHandlers [.uvar 0] (sess0 none)).1 = .ok ∧
+    getU 0 (callImplH 60 wNestedHandlers [.uvar 0] (sess0 none)).2.uvars = some (-1) ∧
+    (callImplH 60 wNestedHandlers [.uvar 0] (sess0 none)).2.log = [] ∧
+    (callSpecH 40 wNestedHandlers [.uvar 0] (sess0 none)).map (fun r => (r.1, getU 0 r.2.uvars, r.2.log)) = some (.ok, some 3, [some (-2)]) := by
+  decide
+
+/-- EXIT handler in a block that is not the outermost one: its scope stays on the stack. -/
+def wExitLeak : HProc := { params := outR, body :=
+  (.block (.seq (.declare 3 1) (.seq
+    (.block (.seq (.declare 3 2) (.seq (.handler true false 0 (.lit (-1))) (.seq .signal (.set 0 (.lit 2))))))
+    (.seq (.emit (.var 3)) (.set 0 (.var 3)))))) }
+
+theorem finding_exit_handler_scope_leak :
+    exitHandlerNested true wExitLeak.body = true ∧ nestedHandlers false wExitLeak.body = false ∧
+    getU 0 (callImplH 60 wExitLeak [.uvar 0] (sess0 none)).2.uvars = some 2 ∧
+    (callImplH 60 wExitLeak [.uvar 0] (sess0 none)).2.log = [some 2] ∧
+    (callSpecH 40 wExitLeak [.uvar 0] (sess0 none)).map (fun r => (r.1, getU 0 r.2.uvars, r.2.log)) = some (.ok, some 1, [some 1]) := by
+  decide
+
+/-- … and the dead handler keeps catching: a later error jumps back to the dead block's end and the
+failing statement runs again — the op machine does not stop (the engine: CALL never returns), the
+structured semantics ends with errno 1644. -/
+theorem finding_exit_handler_dead_handler_loops :
+    let p : HProc := ⟨outR, .block (.seq (.block (.seq (.handler true false 0 (.lit (-1))) (.seq .signal (.set 0 (.lit 2)))))
+      (.seq .signal (.set 0 (.lit 5))))⟩
+    exitHandlerNested true p.body = true ∧
+    (callImplH 300 p [.uvar 0] (sess0 none)).1 = .timeout ∧
+    (callSpecH 40 p [.uvar 0] (sess0 none)).map (·.1) = some (.err 1644) := by
+  decide
+
+/-- The handler statement's names are resolved where the error happened. -/
+def wDynScope : HProc := { params := outR, body :=
+  (.block (.seq (.declare 3 1) (.seq (.handler false false 3 (.lit 7)) (.seq
+    (.block (.seq (.declare 3 2) (.seq .signal (.emit (.var 3)))))
+    (.seq (.emit (.var 3)) (.set 0 (.var 3))))))) }
+
+theorem finding_handler_body_dynamic_scope :
+    handlerDynScope wDynScope.body = true ∧ nestedHandlers false wDynScope.body = false ∧
+    exitHandlerNested true wDynScope.body = false ∧
+    getU 0 (callImplH 60 wDynScope [.uvar 0] (sess0 none)).2.uvars = some 1 ∧
+    (callImplH 60 wDynScope [.uvar 0] (sess0 none)).2.log.reverse = [some 7, some 1] ∧
+    (callSpecH 40 wDynScope [.uvar 0] (sess0 none)).map (fun r => (r.1, getU 0 r.2.uvars, r.2.log.reverse)) = some (.ok, some 7, [some 2, some 7]) := by
+  decide
+
+/-- Non-vacuity of `spec_exit_skips_rest_of_declaring_block` and
+`spec_continue_resumes_in_nested_block`: their hypotheses hold on a concrete store. -/
+example : execH 9 (.block (.seq (.handler true false 0 (.lit 5)) (.seq (.block (.seq .signal (.emit (.lit 1)))) (.emit (.lit 2)))))
+    { stack := [HScope.empty], sess := [(0, ⟨none, false⟩)], log := [] }
+    = some (.normal, { stack := [HScope.empty], sess := [(0, ⟨some 5, true⟩)], log := [] }) := by
+  decide
+
+example : execH 9 (.block (.seq (.handler false false 0 (.lit 5)) (.block (.seq .signal (.emit (.var 0))))))
+    { stack := [HScope.empty], sess := [(0, ⟨none, false⟩)], log := [] }
+    = some (.normal, { stack := [HScope.empty], sess := [(0, ⟨some 5, true⟩)], log := [some 5] }) := by
+  decide
+
+end Handlers
 
 end Gms.C24
